@@ -275,7 +275,7 @@ def updateK (s : State) (c : CtxId) (cons : Addr) (provs : List Addr) (thr : Nat
           else
             let timeout' := if timeout = 0 then x.timeout else timeout
             let freq' := if freq = 0 then x.freq else freq
-            if (freq' : Int) < timeout' then fail s .invalidRepeatedFreq
+            if timeout' < 0 ∨ (freq' : Int) < timeout' then fail s .invalidRepeatedFreq   -- `freq < uint64(timeout)`
             else if total ≥ 1 ∧ total < (x.batch : Int) then fail s .invalidRepeatedTotal
             else
               let x3 := if provs.isEmpty then x2 else { x2 with provs := provs }
